@@ -531,7 +531,8 @@ fn compress_backtrack(outputdata: &mut Vec<u8>, buffer: &Buffer, fonts: &[usize]
                             }
                         }
                         Compression::Full => {
-                            end_run = cur != run_ch;
+                            // AttributedChar equality does not look at the font page, the attribute byte does (512 character mode)
+                            end_run = cur != run_ch || cur.get_font_page() != run_ch.get_font_page();
                         }
                     }
                 }
